@@ -312,6 +312,17 @@ def e2e_cases(pid, tier, rng):
             case = Case({name: lay.data}, ["--color", "never", "--blocksz", str(Bx), name], lay.printed(),
                         note={"blocksz": Bx, "container": "plain", "file": name}, timeout=60)
             cases.append((case, lay, Bx, "plain"))
+    # a message over several blocks whose last newline is the first byte of a block, short messages behind it in that block:
+    # plain and streamed
+    for B in ([256, 1024] if tier == "quick" else [128, 256, 512, 1024, 4096]):
+        for parts in (1, 5):
+            lay = textgen.span_layout(rng, B, notation="iso", nblocks=3, parts=parts)
+            for cont, enc in (("plain", None), ("gz", gen.gz_bytes), ("bz2", gen.bz2_bytes)):
+                for Bx in (B, B // 2 if B >= 128 else B, 65536):
+                    name = "sp%d_%d.log" % (B, parts) + ("" if cont == "plain" else "." + cont)
+                    case = Case({name: enc(lay.data) if enc else lay.data}, ["--color", "never", "--blocksz", str(Bx), name], lay.printed(),
+                                note={"blocksz": Bx, "container": cont, "file": name}, timeout=60)
+                    cases.append((case, lay, Bx, cont))
     # boundary family: the first message(s) end exactly on a block end, a multi-block line starts the next block
     for B in ([64, 100, 128] if tier == "quick" else [64, 65, 100, 128, 200, 256, 1000, 4096, 8096, 9000]):
         for first, contb, shift in [(f_, c_, s_) for f_ in ((1, 2) if B < 8096 else (2, 3)) for c_ in (False, True) for s_ in (0, 1)]:
